@@ -147,7 +147,14 @@ func (language *Language) CompilerPasses() compiler.Passes {
 		&compiler.EnumMemberIdentifiers{Language: LanguageRef, Identifier: enumMemberIdentifier},
 		// fields whose names only differ by their case or their separators (`user_id`, `userId`)
 		&compiler.StructFieldIdentifiers{Language: LanguageRef, Identifier: structFieldIdentifier},
+		// objects whose names only differ by their case or their separators (`pet_kind`, `PetKind`)
+		&compiler.ObjectIdentifiers{Language: LanguageRef, Identifier: objectIdentifier},
 	}
+}
+
+// objectIdentifier gives the name of the class declared for an object.
+func objectIdentifier(object ast.Object) string {
+	return formatObjectName(object.Name)
 }
 
 // structFieldIdentifier gives the name of the field declared for a struct field.
